@@ -237,3 +237,46 @@ def run_state_assignments():
                 record(n, 'raw-invalid', obj, got)
             orm.rollback()
     return out, {n: (getattr(S, n).converters[0]) for n in sc}
+
+
+# ------------------------------------------------------------------------------------------------ declared type: real validate on one representative per Python type
+
+def type_outcomes():
+    """-> {convkind: {tag: ('accept', result tag) | ('reject', code)}} from the real converters of a mapped entity, and the converters."""
+    import datetime as dt, uuid
+    from pony import orm
+    from py2coq import typedispatch as td
+    kinds = {'CBool': bool, 'CStr': str, 'CInt': int, 'CReal': float, 'CDecimal': Decimal, 'CBlob': bytes, 'CDate': dt.date, 'CTime': dt.time,
+             'CTimedelta': dt.timedelta, 'CDatetime': dt.datetime, 'CUuid': uuid.UUID}
+    db = orm.Database('sqlite', ':memory:')
+    T = type('T', (db.Entity,), {k.lower(): orm.Optional(ty) for k, ty in kinds.items()})
+    db.generate_mapping(create_tables=True)
+    out = {}
+    for k in kinds:
+        conv = getattr(T, k.lower()).converters[0]
+        row = {}
+        for tag, sample in td.samples():
+            try:
+                r = conv.validate(sample)
+                row[tag] = ('accept', td.tag_of(r))
+            except Exception as e:
+                row[tag] = ('reject', exc_code(e))
+        out[k] = row
+    return out
+
+
+def dec_init_real(p, s):
+    from pony import orm
+    try:
+        conv = provider(False).get_converter_by_attr(orm.Optional(Decimal, precision=p, scale=s))
+    except Exception as e:
+        return ('err', exc_code(e))
+    return ('ok', conv.precision, conv.scale)
+
+
+def dec_precision_probe():
+    """Optional(Decimal, 5, 2) given 123456.789: accepted?"""
+    from pony import orm
+    conv = provider(False).get_converter_by_attr(orm.Optional(Decimal, 5, 2))
+    try: conv.validate(Decimal('123456.789')); return True
+    except Exception: return False
